@@ -145,7 +145,7 @@ def to_shorthand(spec, rng):
             del t["input"]
         for tr in t.get("next", []):
             do = tr.get("do")
-            if do == ["continue"] and rng.random() < 0.7:
+            if do == ["continue"] and len(tr) > 1 and rng.random() < 0.7:
                 del tr["do"]
             elif isinstance(do, list) and len(set(do)) == len(do):
                 tr["do"] = rng.choice([", ", ",", " , "]).join(do)
